@@ -93,6 +93,7 @@ func main() {
 	digestChecks(r)
 	hmacChecks(r)
 	streamChecks(r)
+	overlappedStreams(r)
 	ipv4Checks(r)
 	stabilityChecks(r)
 	reusedKeyBuffer(r)
